@@ -406,6 +406,12 @@ fn run_c05(ctx: &mut Ctx) -> Verdict {
     if ctx.tape.weighted(&[63, 1]) == 1 {
         return super::c18_rsim::run_mode(ctx, super::c18_rsim::Mode::Coalesced);
     }
+    // one run in 50 is C18's scenario (reply futures abandoned at their suspension points): a reply
+    // that gets lost with an abandoned reader leaves a C05 caller waiting for ever on a responsive server
+    if ctx.tape.weighted(&[49, 1]) == 1 {
+        ctx.count("runs.with_abandoned_reply_futures");
+        return run(ctx, true);
+    }
     run(ctx, false)
 }
 
@@ -438,7 +444,7 @@ pub static C05: PropSpec = PropSpec {
     runs: |t| if t == Tier::Thorough { 30_000_000 } else { 300_000 },
     enumerated: |_| 0,
     run: run_c05,
-    rule: "one run in 64: 2-4 pipelined requests over the real TLS / SSH / local transport against the scripted peer, the replies (in a seeded order) delivered as one byte stream with 0-3 cuts, i.e. up to all of them in one delivery; every caller must get its own reply and one more request must work. Otherwise: seeded schedules over 1-8 pipelined get/lock requests; each reply future awaited at once, kept and joined, or moved to its own task; replies delivered in order or permuted; send back-pressure; spurious polls. A run is non-trivial when >=2 replies were in flight at a delivery or a reader parked a reply for another waiter; distinct = distinct event-log hash (scheduler actions + messages)",
+    rule: "one run in 50: the C18 scenario (reply futures abandoned at their suspension points; the survivors must still get their own replies). One run in 64: 2-4 pipelined requests over the real TLS / SSH / local transport against the scripted peer, the replies (in a seeded order) delivered as one byte stream with 0-3 cuts, i.e. up to all of them in one delivery; every caller must get its own reply and one more request must work. Otherwise: seeded schedules over 1-8 pipelined get/lock requests; each reply future awaited at once, kept and joined, or moved to its own task; replies delivered in order or permuted; send back-pressure; spurious polls. A run is non-trivial when >=2 replies were in flight at a delivery or a reader parked a reply for another waiter; distinct = distinct event-log hash (scheduler actions + messages)",
     components: COMPONENTS_C18,
     assumptions: &["the server answers every request exactly once (responsive server); one run in eight additionally injects a reply with an unknown message-id; in one run in six one rpc() call is abandoned after its bytes reached the server (dropped while the flush is pending, or the transport reports a write error): its message-id must never be used again, and the caller that happens to read the reply nobody waits for may get RequestNotFound (noted, not judged)"],
     watchdog_s: 30,
